@@ -42,6 +42,8 @@ pub struct ROut {
     pub terms: Vec<Term>,
     /// amount = sum of inputs - all other outputs' terms - fees
     pub change: bool,
+    /// `output ?`: left out of the transaction when its amount is empty
+    pub optional: bool,
 }
 
 #[derive(Clone, Debug)]
@@ -148,7 +150,7 @@ impl Scenario {
             s.push_str("  }\n");
         }
         for (oi, o) in self.outs.iter().enumerate() {
-            s.push_str(&format!("  output {} {{\n    to: {},\n", o.name.clone().unwrap_or_default(), self.who(o.party)));
+            s.push_str(&format!("  output {}{} {{\n    to: {},\n", if o.optional { "? " } else { "" }, o.name.clone().unwrap_or_default(), self.who(o.party)));
             if o.change {
                 let mut e = self.ins.iter().map(|i| i.name.clone()).collect::<Vec<_>>().join(" + ");
                 for (oj, other) in self.outs.iter().enumerate() {
@@ -248,9 +250,9 @@ pub fn generate(t: &mut Tape, o: &ROpts) -> Scenario {
         if o.allow_tokens && t.chance(1, 3) {
             terms.push(Term::TokLit(1 + t.pick(50) as i128));
         }
-        outs.push(ROut { name: if named { Some(out_names[j].to_string()) } else { None }, party: 1 + t.pick(n_parties - 1), terms, change: false });
+        outs.push(ROut { name: if named { Some(out_names[j].to_string()) } else { None }, party: 1 + t.pick(n_parties - 1), terms, change: false, optional: false });
     }
-    outs.push(ROut { name: if t.flag() { Some("rest".into()) } else { None }, party: 0, terms: vec![], change: true });
+    outs.push(ROut { name: if t.flag() { Some("rest".into()) } else { None }, party: 0, terms: vec![], change: true, optional: false });
     // blocks are served in name order: names on both sides of `collateral`
     let in_names = if t.chance(1, 3) { ["anchor", "source", "gas", "Pool"] } else { ["source", "gas", "Pool", "extra_in"] };
     let mut ins = vec![];
